@@ -4,6 +4,7 @@
 package wh
 
 import (
+	"time"
 	"bytes"
 	"context"
 	"database/sql"
@@ -98,6 +99,9 @@ type Config struct {
 	Store   string   // "mem", "sql" (sqlite :memory:, one connection), "file:<path>"
 	Logs    []LogCfg // configured logs
 	Signers []string // subset of legacy, cosig, cosig2 (default: legacy, cosig)
+	// Guard: Do runs the update under a 60 s watchdog (for searches on the
+	// single-connection SQL store, where a leaked transaction blocks forever).
+	Guard bool
 	// Wrap optionally wraps the persistence handed to the witness.
 	Wrap func(persistence.LogStatePersistence) persistence.LogStatePersistence
 	// DrvSetup is called on the wrapping SQL driver before the store is
@@ -126,6 +130,13 @@ type Env struct {
 	// read path is under test and cannot be its own ground truth).
 	mirrorMu sync.Mutex
 	mirror   map[string][]byte
+	wrapped  persistence.LogStatePersistence
+	known    map[string]witness.LogInfo
+	// Blocked: a guarded call never returned; the environment is unusable.
+	Blocked bool
+	inGuard bool
+	// OnRestart re-wires whatever was built around e.W (handlers, clients).
+	OnRestart func(*Env)
 }
 
 // Signers resolves signer names.
@@ -208,12 +219,27 @@ func NewEnv(u *uni.U, cfg Config) *Env {
 	if cfg.Wrap != nil {
 		p = cfg.Wrap(p)
 	}
+	e.wrapped, e.known = p, known
 	w, err := witness.New(witness.Opts{Persistence: p, Signers: e.Sigs, KnownLogs: known})
 	if err != nil {
 		panic(fmt.Sprintf("witness.New: %v", err))
 	}
 	e.W = w
 	return e
+}
+
+// Restart replaces the Witness by a new one over the same store (a process
+// restart as far as the witness object is concerned: whatever it kept in
+// memory is gone, what it stored is not).
+func (e *Env) Restart() {
+	w, err := witness.New(witness.Opts{Persistence: e.wrapped, Signers: e.Sigs, KnownLogs: e.known})
+	if err != nil {
+		panic(fmt.Sprintf("witness.New (restart): %v", err))
+	}
+	e.W = w
+	if e.OnRestart != nil {
+		e.OnRestart(e)
+	}
 }
 
 // Close releases the store.
@@ -226,6 +252,11 @@ func (e *Env) Close() {
 // Stored reads the stored bytes of one log through the unwrapped store
 // (nil = nothing stored).
 func (e *Env) Stored(id string) []byte {
+	if e.Cfg.Guard && !e.inGuard {
+		var b []byte
+		e.guarded(func() { b = e.Stored(id) })
+		return b
+	}
 	if e.DB != nil {
 		// Ground truth for the SQL store is read straight from the table,
 		// not through the persistence object (whose read path is under test).
@@ -270,6 +301,11 @@ type Snapshot struct {
 
 // Snap takes a snapshot through the unwrapped store.
 func (e *Env) Snap() Snapshot {
+	if e.Cfg.Guard && !e.inGuard {
+		sn := Snapshot{ByID: map[string]string{}}
+		e.guarded(func() { sn = e.Snap() })
+		return sn
+	}
 	s := Snapshot{ByID: map[string]string{}}
 	l, err := e.Raw.Logs()
 	if err != nil {
@@ -400,9 +436,58 @@ func (e *Env) Do(r Req) Outcome {
 			proof[i] = append([]byte(nil), h...)
 		}
 	}
-	b, err := e.W.Update(context.Background(), r.LogID, r.Old, cp, proof)
-	return Outcome{Bytes: b, Err: err, Class: Classify(err)}
+	if !e.Cfg.Guard {
+		b, err := e.W.Update(context.Background(), r.LogID, r.Old, cp, proof)
+		return Outcome{Bytes: b, Err: err, Class: Classify(err)}
+	}
+	// Guarded: a call that does not return within a minute (the store's only
+	// connection is held by something an earlier request leaked) is reported
+	// as blocked instead of hanging the check. The environment is dead then.
+	if e.Blocked {
+		return Outcome{Err: ErrBlocked, Class: Blocked}
+	}
+	type res struct {
+		b   []byte
+		err error
+	}
+	ch := make(chan res, 1)
+	go func() {
+		b, err := e.W.Update(context.Background(), r.LogID, r.Old, cp, proof)
+		ch <- res{b, err}
+	}()
+	select {
+	case x := <-ch:
+		return Outcome{Bytes: x.b, Err: x.err, Class: Classify(x.err)}
+	case <-time.After(60 * time.Second):
+		e.Blocked = true
+		return Outcome{Err: ErrBlocked, Class: Blocked}
+	}
 }
+
+// guarded runs f under the watchdog (ground-truth reads of the SQL store use
+// the same single connection a leaked transaction holds).
+func (e *Env) guarded(f func()) {
+	if e.Blocked {
+		return
+	}
+	done := make(chan struct{})
+	go func() {
+		e.inGuard = true
+		defer func() { e.inGuard = false; close(done) }()
+		f()
+	}()
+	select {
+	case <-done:
+	case <-time.After(60 * time.Second):
+		e.Blocked = true
+	}
+}
+
+// Blocked is the class of a guarded call that never returned.
+const Blocked = "blocked"
+
+// ErrBlocked is the error of a guarded call that never returned.
+var ErrBlocked = errors.New("verif: the call did not return within 60 s (store blocked)")
 
 // ---------------------------------------------------------------- wmodel
 
